@@ -43,3 +43,13 @@ U("cJSON_ParseWithLength", "cjson", "harness/cJSON_ParseWithLength.c", enforce="
   replace=["cJSON_ParseWithLengthOpts"])
 U("cJSON_GetErrorPtr", "cjson", "harness/cJSON_GetErrorPtr.c", enforce="cJSON_GetErrorPtr", shape="U", props=["C10", "C20"], covers=2,
   checks_off=["--pointer-overflow-check"], note="pointer-overflow check off: the code forms NULL + 0 after a successful parse (benign, but flagged by CBMC)")
+
+# ---------------------------------------------------------------- cJSON.c : printing
+U("ensure", "cjson", "harness/ensure.c", enforce="ensure", shape="U", props=["C04", "C07", "C08", "C09", "C14", "C20"], covers=4, unwind=4,
+  timeout=(600, 1800), note="all buffer lengths 0..INT_MAX, all offsets, both growth paths, noalloc, failing allocator")
+U("print_number", "cjson", "harness/print_number.c", enforce="print_number", shape="U", props=["C04", "C05", "C08", "C09", "C14", "C20"], covers=5,
+  replace=["ensure"], unwind=27, timeout=(600, 1800), note="all doubles bit-precisely; copy loop bounded by the 26-byte stack buffer: complete unwinding")
+U("print_value", "cjson", "harness/print_value.c", enforce="print_value", shape="U", loops=True, expect_loop_obligations=1,
+  props=["C04", "C05", "C08", "C09", "C14", "C20"], covers=5, unwind=8,
+  replace=["ensure", "print_number/print_number_cv", "print_string", "print_array", "print_object"],
+  note="type dispatch for every type word; literal writers exact; raw copied through the strlen/memcpy models (pointwise at g_k)")
